@@ -27,7 +27,7 @@ ASSUMPTIONS = ['deterministic dividers (set, split of even integers, zero)',
                'states given to _add / _generate only name declared variables',
                'Store-level: operations are applied directly with Store.apply_update (engine-level histories are C10)']
 
-KINDS = ['add_leaf', 'delete_reissued', 'add', 'add_dup', 'add_existing', 'delete', 'delete_path', 'delete_var', 'generate', 'divide', 'move', 'move_update',
+KINDS = ['bag_cycle', 'add_leaf', 'delete_reissued', 'add', 'add_dup', 'add_existing', 'delete', 'delete_path', 'delete_var', 'generate', 'divide', 'move', 'move_update',
          'combo', 'plain']
 
 
@@ -38,6 +38,11 @@ def gen(r, tier, i):
     nleaf = 0
     for _ in range(r.randint(1, 8)):
         kind = r.choice(KINDS)
+        if kind == 'bag_cycle':
+            # a store whose glob port declares nothing for its children: emptied completely, then used again
+            nleaf += 1
+            batches.append([['bag_cycle', 'bag', 'k%d' % nleaf, r.randint(1, 9)]])
+            continue
         if kind == 'add_leaf':
             # a child of a glob store of plain variables, created with a (possibly falsy) value of its own
             nleaf += 1
@@ -129,6 +134,7 @@ def run(spec):
         def ports_schema(self):
             return {'other': {'z': {'_default': 7}, 'w': {'_default': [1, 2], '_updater': 'set'}},
                     'L': {'*': {'_default': 5, '_updater': 'set'}},
+                    'BAG': {'*': {}},
                     # a variable that only this glob sub-schema declares for the cells of A and B
                     # ... and a second glob store inside every cell (its children come with the cells' states)
                     'GA': {'*': {'st': {'g': {'_default': 0}}, 'ves': {'*': {'v': {'_default': 5}, 'w': {'_default': 6}}}}},
@@ -136,8 +142,8 @@ def run(spec):
 
         def next_update(self, timestep, states):
             return {}
-    comp.merge(processes={'keeper': Keeper({'tag': 'keeper'})}, topology={'keeper': {'other': ('other',), 'L': ('L',), 'GA': ('A',), 'GB': ('B',)}}, path=base)
-    init = {'B': {}, 'L': {'l0': 1}, 'A': {a: {'st': {'n': spec['n0'][a]}} for a in ('a', 'b')}}
+    comp.merge(processes={'keeper': Keeper({'tag': 'keeper'})}, topology={'keeper': {'other': ('other',), 'L': ('L',), 'GA': ('A',), 'GB': ('B',), 'BAG': ('bag',)}}, path=base)
+    init = {'B': {}, 'L': {'l0': 1}, 'bag': {'x': {'v': 1}}, 'A': {a: {'st': {'n': spec['n0'][a]}} for a in ('a', 'b')}}
     for k in reversed(base):
         init = {k: init}
     try:
@@ -148,7 +154,7 @@ def run(spec):
         return {'viol': list(V), 'evals': V.evals, 'nontrivial': False}
     dir_store = store.get_path(('dir',))
     shadow = {'A': {a: cell_shadow(a, spec['n0'][a], der) for a in ('a', 'b')}, 'B': {},
-              'dir': ('P', 'dir'), 'keeper': ('P', 'keeper'), 'clk': 0.0, 'other': {'z': 7, 'w': [1, 2]}, 'L': {'l0': 1}}
+              'dir': ('P', 'dir'), 'keeper': ('P', 'keeper'), 'clk': 0.0, 'other': {'z': 7, 'w': [1, 2]}, 'L': {'l0': 1}, 'bag': {'x': {'v': 1}}}
 
     def real_tree():
         def conv(t):
@@ -181,6 +187,24 @@ def run(spec):
     intact_evals = 0
     intact_viol = []
     for ops in spec['batches']:
+        if ops[0][0] == 'bag_cycle':
+            _, port, key, val = ops[0]
+            try:
+                for k in list(shadow[port]):
+                    store.apply_update({port: {'_delete': [k]}}, dir_store)
+                store.apply_update({port: {'_add': [{'key': key, 'state': {'v': val}}]}}, dir_store)
+            except Exception as ex:
+                V.check('tree_matches_shadow', False, ('emptying a store and adding to it again raised', type(ex).__name__, str(ex)[:200], ops))
+                break
+            shadow = copy.deepcopy(shadow)
+            shadow[port] = {key: {'v': val}}
+            got = real_tree()
+            applied += 1
+            kinds_seen.add('bag_cycle')
+            if not V.check('tree_matches_shadow', got == shadow,
+                           lambda: ('a store emptied by _delete and filled again by _add differs from the specification', ops, _ddiff(shadow, got))):
+                break
+            continue
         if ops[0][0] == 'add_leaf':
             _, port, key, val = ops[0]
             try:
